@@ -318,7 +318,7 @@ func execOp(line string) string {
 // instead of taking the sandbox down (the unfixed decodeByteArray loops forever while
 // growing a slice on `dec S,a1 c100`).
 
-var opStart int64 // unix nano of the running op, 0 when idle
+var opStart int64      // unix nano of the running op, 0 when idle
 var curOp atomic.Value // the op line being executed (string)
 var curPath string     // where to leave it if the watchdog aborts (vlib reads <ops>.cur)
 
